@@ -5,5 +5,5 @@ cd /verif
 git -C /repo diff --quiet || { echo "/repo dirty"; exit 9; }
 git -C /repo apply "$(realpath $D)/patch.diff" || exit 9
 trap 'git -C /repo checkout -- .' EXIT
-./check $P --tier $T 2>&1 | tail -4
+timeout 1500 ./check $P --tier $T 2>&1 | tail -4
 echo "rc=${PIPESTATUS[0]}"
